@@ -229,8 +229,42 @@ def cellify(path):
     return ast.unparse(m.tree)
 
 
+def private_data_attrs(root):
+    """names `_x` stored through `self._x = ...` somewhere and defined as a function / class / class-level name nowhere"""
+    stored, defined = set(), set()
+    for dp, _, fns in os.walk(os.path.join(root, "reactivex")):
+        for fn in fns:
+            if fn.endswith(".py"):
+                t = ast.parse(open(os.path.join(dp, fn)).read())
+                for n in ast.walk(t):
+                    if isinstance(n, ast.Attribute) and isinstance(n.ctx, ast.Store) and n.attr.startswith("_") and not n.attr.startswith("__"):
+                        stored.add(n.attr)
+                    if isinstance(n, (ast.FunctionDef, ast.AsyncFunctionDef, ast.ClassDef)):
+                        defined.add(n.name)
+                    if isinstance(n, ast.ClassDef):
+                        for b in n.body:
+                            for x in ast.walk(b) if isinstance(b, (ast.Assign, ast.AnnAssign)) else ():
+                                if isinstance(x, ast.Name):
+                                    defined.add(x.id)
+                    if isinstance(n, ast.Constant) and isinstance(n.value, str):
+                        defined.add(n.value)      # getattr / __slots__ strings: leave those names alone
+    return stored - defined
+
+
+class AttrRename(ast.NodeTransformer):
+    def __init__(self, names):
+        self.names = names
+
+    def visit_Attribute(self, n):
+        self.generic_visit(n)
+        if n.attr in self.names:
+            n.attr = n.attr + "_priv"
+        return n
+
+
 def transform(root, kind):
     n = 0
+    pda = private_data_attrs(root) if kind == "attrrename" else None
     for dp, _, fns in os.walk(os.path.join(root, "reactivex")):
         for fn in fns:
             if not fn.endswith(".py"):
@@ -240,6 +274,8 @@ def transform(root, kind):
             tree = ast.parse(src)
             if kind == "flipcmp":
                 tree = FlipCmp().visit(tree)
+            elif kind == "attrrename":
+                tree = AttrRename(pda).visit(tree)
             elif kind == "invertif":
                 tree = InvertIf().visit(tree)
             elif kind == "rename":
